@@ -695,6 +695,8 @@ def check_ds_allocfail(ctx):
 
 
 SUBCHECKS = {
-    "C12": [check_ds_elasticarray, check_ds_elasticqueue, check_ds_seqptrmap, check_ds_mpool],
+    # the C12 refinement theorems quantify over every allocation oracle ("after ANY sequence of operations",
+    # refused ones included), so the allocation-failure programs serve C12 as well as C14
+    "C12": [check_ds_elasticarray, check_ds_elasticqueue, check_ds_seqptrmap, check_ds_mpool, check_ds_allocfail],
     "C14": [check_ds_allocfail],
 }
